@@ -665,7 +665,7 @@ class Tracker:
             pass
 
 
-def e2e_one(ctx, cases, tmp, rng_seed, with_output=True, stale_file=False):
+def e2e_one(ctx, cases, tmp, rng_seed, with_output=True, stale_file=False, new_options=False, name_kind=0):
     """one `imdl torrent from-link` run; `cases` = the scripted peers the tracker hands out"""
     import random
     rng = random.Random(rng_seed)
@@ -674,11 +674,17 @@ def e2e_one(ctx, cases, tmp, rng_seed, with_output=True, stale_file=False):
     d = tempfile.mkdtemp(dir=tmp)
     target = cases[0]["target"]
     link = "magnet:?xt=urn:btih:%s&tr=udp://127.0.0.1:%d" % (target.hex(), tr.port)
-    argv = ["torrent", "from-link", link] + (["--output", "out.torrent"] if with_output else [])
+    # the output name varies: short, a dotted name, names of 250 ... 255 bytes (NAME_MAX), inside a subdirectory (seeded change
+    # C11-17: the torrent staged as `<TARGET>.part`, a name the file system refuses for targets within 4 bytes of NAME_MAX)
+    outname = "out.torrent"
+    if with_output:
+        k = name_kind % 7
+        outname = ["out.torrent", "out.torrent", "o" * 250, "o" * 251 + ".t", "n" * 255, "é" * 127 + "x", "a.b.c"][k]
+    argv = ["torrent", "from-link", link] + (["--output", outname] if with_output else [])
     # options of from-link the check does not know (read from --help) are given in every second run: whatever they add, the fetch
     # still ends with exit status 0 or 1 and the written dictionary is the served one (seeded change C11-16: a new --show that
     # panicked on a size sum after the file had been written)
-    if rng_seed % 2:
+    if new_options:
         for flag, val in lib.unknown_options(ctx.bins["imdl"], ["torrent", "from-link"]):
             argv += [flag] + ([val] if val is not None else [])
     stale = None
@@ -686,7 +692,7 @@ def e2e_one(ctx, cases, tmp, rng_seed, with_output=True, stale_file=False):
         # something longer than any torrent of this run is already at the output path (an earlier fetch): the new torrent
         # must replace it completely (added after seeded change C11-8: the output opened without truncation)
         stale = b"d4:infod6:lengthi1e4:name5:stale12:piece lengthi16384e6:pieces20:" + b"s" * 20 + b"ee" + b"#" * 200000
-        with open(os.path.join(d, "out.torrent"), "wb") as f:
+        with open(os.path.join(d, outname), "wb") as f:
             f.write(stale)
     rc, out, err = ctx.imdl(argv, cwd=d, timeout=90)
     tr.close()
@@ -694,9 +700,9 @@ def e2e_one(ctx, cases, tmp, rng_seed, with_output=True, stale_file=False):
     for fn in sorted(os.listdir(d)):
         files[fn] = open(os.path.join(d, fn), "rb").read()
     shutil.rmtree(d, ignore_errors=True)
-    if stale is not None and rc != 0 and files.get("out.torrent") == stale:
-        del files["out.torrent"]          # a failed fetch left the earlier file as it was: nothing was written
-    return dict(rc=rc, stdout=out, stderr=err, files=files, argv=["imdl"] + argv, expect_name="out.torrent" if with_output else target.hex() + ".torrent",
+    if stale is not None and rc != 0 and files.get(outname) == stale:
+        del files[outname]          # a failed fetch left the earlier file as it was: nothing was written
+    return dict(rc=rc, stdout=out, stderr=err, files=files, argv=["imdl"] + argv, expect_name=outname if with_output else target.hex() + ".torrent",
                 stale_before=stale is not None)
 
 
@@ -974,6 +980,17 @@ def run(ctx):
             cs.append(f)
         cs.insert(r.randrange(len(cs) + 1), goodc)
         e2e.append(cs)
+    # dictionaries at the limits of their integer fields (file lengths just below 2^63 that add up beyond 2^64, piece length 2^32,
+    # a single file of 2^63-1 bytes): served by an honest peer they are fetched and written like any other - together with every
+    # option of from-link the check does not know (seeded change C11-16: `--show` added to from-link summed the lengths unchecked)
+    for lens in ([(1 << 63) - 1] * 3, [(1 << 63) - 1, (1 << 63) - 1, 2], [(1 << 62)] * 5, None):
+        dd = {"name": "big", "piece length": 1 << 32 if lens is None else 16384, "pieces": b""}
+        if lens is None:
+            dd["length"] = (1 << 63) - 1
+        else:
+            dd["files"] = [{"length": n, "path": ["f%d" % i]} for i, n in enumerate(lens)]
+        c = honest_case(ctx, r, info=ben(dd), noise_p=0.0, cut="whole", label="honest-integer-limits")
+        e2e.append([c])
     e2e.append([])                                  # tracker returns no peers
     c = honest_case(ctx, r, info=make_info(r, opt=set(), update_url="http://example.com"), noise_p=0.0, cut="whole", label="honest-nonnormal-url")
     c["known"] = KNOWN_KEY
@@ -999,7 +1016,7 @@ def run(ctx):
                 rc, out, err = ctx.imdl(argv, cwd=d, timeout=60)
                 tr.close()
                 return dict(rc=rc, stdout=out, stderr=err, files={f: b"" for f in os.listdir(d)}, argv=["imdl"] + argv, expect_name="-")
-            return e2e_one(ctx, cs, tmp, ctx.seed * 7919 + k, with_output=(k % 3 != 0), stale_file=(k % 3 == 1))
+            return e2e_one(ctx, cs, tmp, ctx.seed * 7919 + k, with_output=(k % 3 != 0), stale_file=(k % 3 == 1), new_options=(k % 2 == 1), name_kind=k)
         results = lib.pmap(one, range(len(e2e)), nproc=8)
     finally:
         shutil.rmtree(tmp, ignore_errors=True)
@@ -1011,7 +1028,7 @@ def run(ctx):
             if dry.violations:                    # same rule as above: replay alone once before reporting
                 tmp2 = tempfile.mkdtemp(prefix="c11-")
                 try:
-                    results[k] = e2e_one(ctx, cs, tmp2, ctx.seed * 7919 + k + 1, with_output=(k % 3 != 0), stale_file=(k % 3 == 1))
+                    results[k] = e2e_one(ctx, cs, tmp2, ctx.seed * 7919 + k + 1, with_output=(k % 3 != 0), stale_file=(k % 3 == 1), new_options=(k % 2 == 1), name_kind=k)
                 finally:
                     shutil.rmtree(tmp2, ignore_errors=True)
                 ctx.count("e2e_replayed_before_reporting")
